@@ -141,6 +141,8 @@ type Exec struct {
 	BranchSliceHops int
 	Lazy bool
 	callNames []string
+	bigstrBack map[int]*Term
+	activeFns map[*ssa.Function]int
 	// LazyMath: no feasibility queries on branches inside the pure arithmetic packages (see isMathFn)
 	LazyMath bool
 	ModelHits int
@@ -623,7 +625,15 @@ func (e *Exec) runBody(st *State, fn *ssa.Function, args []Value, depth int) []O
 
 func (e *Exec) callFn(st *State, fn *ssa.Function, args []Value, env []Value, depth int, recoverable *panicRec) (outs []Outcome) {
 	if depth > e.MaxDepth {
-		return []Outcome{{Kind: OutError, St: st, Why: "call depth exceeded at " + fn.String()}}
+		why := "call depth exceeded at " + fn.String()
+		if os.Getenv("GOSYM_ERRSTACK") != "" {
+			n := len(e.callNames)
+			if n > 14 {
+				n = 14
+			}
+			why += " stack tail: " + strings.Join(e.callNames[len(e.callNames)-n:], " > ")
+		}
+		return []Outcome{{Kind: OutError, St: st, Why: why}}
 	}
 	if fn.Synthetic == "package initializer" && fn.Pkg != nil {
 		if !e.initAllowed(fn.Pkg.Pkg.Path()) {
@@ -653,7 +663,14 @@ func (e *Exec) callFn(st *State, fn *ssa.Function, args []Value, env []Value, de
 	}
 	e.FuncsSeen[fn]++
 	e.callNames = append(e.callNames, fn.String())
-	defer func() { e.callNames = e.callNames[:len(e.callNames)-1] }()
+	if e.activeFns == nil {
+		e.activeFns = map[*ssa.Function]int{}
+	}
+	e.activeFns[fn]++
+	defer func() {
+		e.callNames = e.callNames[:len(e.callNames)-1]
+		e.activeFns[fn]--
+	}()
 	if os.Getenv("GOSYM_CALLS") != "" && depth <= 4 {
 		t0 := time.Now()
 		defer func() {
@@ -809,7 +826,9 @@ func (e *Exec) runFrame(f *Frame) (done []Outcome, more []*Frame) {
 				return append(done, Outcome{Kind: OutError, St: f.st, Why: fmt.Sprintf("unwinding bound %d exceeded in %s", e.Unwind, f.fn)}), more
 			}
 			tOK, fOK := true, true
-			if !(e.LazyMath && isMathFn(f.fn)) {
+			// (a math function that is active more than once is recursing: its branches are decided eagerly, otherwise
+			// e.g. chopPrecisionAndRound's "negative => negate and recurse" would unfold forever)
+			if !(e.LazyMath && isMathFn(f.fn) && e.activeFns[f.fn] <= 1) {
 				tOK, fOK = e.feasibleBoth(f.st, c)
 			} else if e.inInit {
 				unsupported("symbolic branch during package init")
